@@ -39,7 +39,9 @@
    Scope: command templates are non-empty; the focused item is an index (-1 = minItem when the list is
    empty), i.e. the `items[0] == nil` branch (empty list and a template without {q}) is not modelled;
    preview window options other than hidden/visible, scrolling, follow, clearCode, reqPreviewDelayed
-   (blanking after 500 ms) are not modelled. *)
+   (blanking after 500 ms) are not modelled.  Of change-preview-window only the hidden/visible transition is
+   modelled in this machine (LHideWin / LShowWin); the scroll offset of a request and the rule by which partial
+   output is rendered are modelled separately, per command, by the scroll machine at the end of this file. *)
 From Fzf Require Import Prelude PreviewSpec.
 Open Scope Z_scope.
 
@@ -157,7 +159,9 @@ Inductive label :=
 | LSel (sel : list Z)
 | LChangePreview (t : tmpl)
 | LRefresh                      (* refresh-preview *)
-| LToggle                       (* toggle-preview *)
+| LToggle                       (* toggle-preview (also show-preview / hide-preview when they apply) *)
+| LHideWin                      (* change-preview-window(..hidden..): the window goes away, its content is kept *)
+| LShowWin                      (* change-preview-window(..) with a layout that is not hidden *)
 (* render loop *)
 | LRender                       (* ui_enqueue: handles reqList *)
 | LDisplay                      (* handles reqPreviewDisplay *)
@@ -226,6 +230,27 @@ Definition step (pol : policy) (l : label) (s : state) : option state :=
           Some (mkS (s_ui s) (s_tmpl s) false (s_version s) (s_seen s) (s_pending s) (s_box s) (s_quit s) (s_pver s)
                     (cancel_ph (s_ph s)) (s_disp s) (s_shown_ver s) [] (s_running s) (s_evtquit s) (s_ended s)
                     (s_tab s) (s_gen s) (s_clean s))
+        else
+          Some (refresh true
+               (mkS (s_ui s) (s_tmpl s) true (s_version s) (s_seen s) (s_pending s) (s_box s) (s_quit s) (s_pver s)
+                    (s_ph s) (s_disp s) (s_shown_ver s) (s_shown s) (s_running s) (s_evtquit s) (s_ended s)
+                    (s_tab s) (s_gen s) (s_clean s)))
+      else None
+  | LHideWin =>
+      (* actChangePreviewWindow, previewOptsDifferentLayout, the new layout is hidden: updatePreviewWindow;
+         t.cancelPreview().  Unlike toggle-preview the lines are kept.  Already hidden: options compare equal. *)
+      if s_running s then
+        if s_visible s then
+          Some (mkS (s_ui s) (s_tmpl s) false (s_version s) (s_seen s) (s_pending s) (s_box s) (s_quit s) (s_pver s)
+                    (cancel_ph (s_ph s)) (s_disp s) (s_shown_ver s) (s_shown s) (s_running s) (s_evtquit s) (s_ended s)
+                    (s_tab s) (s_gen s) (s_clean s))
+        else Some s
+      else None
+  | LShowWin =>
+      (* actChangePreviewWindow with a visible layout: wasHidden := currentPreviewOpts.hidden; if it was hidden and
+         there is a window now: refreshPreview (restart); otherwise only reqPreviewRefresh (a redraw) *)
+      if s_running s then
+        if s_visible s then Some s
         else
           Some (refresh true
                (mkS (s_ui s) (s_tmpl s) true (s_version s) (s_seen s) (s_pending s) (s_box s) (s_quit s) (s_pver s)
@@ -378,3 +403,79 @@ Definition alive_procs (s : state) : list proc := filter p_alive (s_tab s).
 Definition coded : policy := mkPol true ExitWaitsStopped.         (* the tree with b3cab5f, 268c349, 5b17ce0 *)
 Definition after_268c349 : policy := mkPol true ExitWaitsRunning. (* regression: waited only while `previewing` *)
 Definition old_machine : policy := mkPol false ExitNoWait.        (* regression: the tree before the three fixes *)
+
+(* ================================================================================================
+   The scroll machine: goroutine 2 of ONE preview command together with the render loop's handling of
+   reqPreviewDisplay, restricted to what decides WHICH PART of the output the window shows.
+
+     request      previewRequest.scrollOffset = evaluateScrollOffset() (spec: requested_offset), copied to
+                  initialOffset; goroutine 2 starts with offset := initialOffset, spinnerIndex := -1, lines := []
+     GLine        a line arrives from goroutine 1: lines = append(lines, line)
+     GTick        the 100 ms ticker: if len(lines) > 0 && len(lines) >= initialOffset { if spinnerIndex >= 0
+                  { reqBox.Set(reqPreviewDisplay, {version, lines, offset, spin}); offset = -1 }; spinnerIndex++ }
+     GEof         the read error: reqBox.Set(reqPreviewDisplay, {version, lines, offset, ""}); the goroutine ends
+     RDisplay     render loop: t.previewer.lines = result.lines; if result.offset >= 0 (no follow):
+                  t.previewer.offset = Constrain(result.offset, headerLines, len(lines)-1)
+   reqBox keeps ONE value per event type: a result that is published before the previous one was handled
+   replaces it (and with it the offset the previous one carried).
+
+   sm_gate = false is the machine without the `len(lines) >= initialOffset` condition (regression witness).
+   Ghost flags (they influence no transition): k_lost = a pending result that carried the offset was replaced;
+   k_edge = a partial result was published when len(lines) = initialOffset exactly (the requested line is not
+   there yet, the offset is clamped one line short: known finding c20-scroll-edge). *)
+
+Record sstate := mkK {
+  k_n : Z;                          (* len(lines) in goroutine 2 *)
+  k_spin : option nat;              (* spinnerIndex; None = -1 *)
+  k_off : option Z;                 (* offset still to be sent; None = -1 *)
+  k_box : option (Z * option Z);    (* reqBox[reqPreviewDisplay]: (len(lines), offset) *)
+  k_wn : Z; k_woff : Z;             (* len(t.previewer.lines), t.previewer.offset *)
+  k_eof : bool;
+  k_lost : bool; k_edge : bool
+}.
+
+Inductive slabel := GLine | GTick | GEof | RDisplay.
+
+Definition sinit (req w0 : Z) : sstate := mkK 0 None (Some req) None 0 w0 false false false.
+
+Definition carries_offset (b : option (Z * option Z)) : bool :=
+  match b with Some (_, Some _) => true | _ => false end.
+
+Definition sstep (gate : bool) (req headers : Z) (l : slabel) (s : sstate) : option sstate :=
+  match l with
+  | GLine =>
+      if k_eof s then None
+      else Some (mkK (k_n s + 1) (k_spin s) (k_off s) (k_box s) (k_wn s) (k_woff s) false (k_lost s) (k_edge s))
+  | GTick =>
+      if k_eof s then None
+      else if (0 <? k_n s) && (negb gate || (req <=? k_n s)) then
+        match k_spin s with
+        | Some i =>
+            Some (mkK (k_n s) (Some (S i)) None (Some (k_n s, k_off s)) (k_wn s) (k_woff s) false
+                      (k_lost s || carries_offset (k_box s))
+                      (k_edge s || (match k_off s with Some _ => k_n s =? req | None => false end)))
+        | None => Some (mkK (k_n s) (Some O) (k_off s) (k_box s) (k_wn s) (k_woff s) false (k_lost s) (k_edge s))
+        end
+      else Some s
+  | GEof =>
+      if k_eof s then None
+      else Some (mkK (k_n s) (k_spin s) None (Some (k_n s, k_off s)) (k_wn s) (k_woff s) true
+                     (k_lost s || carries_offset (k_box s)) (k_edge s))
+  | RDisplay =>
+      match k_box s with
+      | Some (m, o) =>
+          Some (mkK (k_n s) (k_spin s) (k_off s) None m
+                    (match o with Some v => constrain v headers (m - 1) | None => k_woff s end)
+                    (k_eof s) (k_lost s) (k_edge s))
+      | None => None
+      end
+  end.
+
+Fixpoint srun (gate : bool) (req headers : Z) (sched : list slabel) (s : sstate) : sstate :=
+  match sched with
+  | [] => s
+  | l :: r => srun gate req headers r (match sstep gate req headers l s with Some s' => s' | None => s end)
+  end.
+
+(* the command has ended and the render loop has nothing left to handle *)
+Definition sdone (s : sstate) : bool := k_eof s && match k_box s with None => true | Some _ => false end.
